@@ -44,6 +44,7 @@ namespace
         if (rep.empty_container) probe("empty_container");
         if (rep.len_65535) probe("len_65535");
         if (rep.payload_64k) probe("payload_64k_or_more");
+        if (rep.count_over_255) probe("container_count_over_255");
         if (rep.nested3) probe("nested_depth3");
         if (rep.nontrivial_elem) probe("non_trivial_element");
     }
